@@ -394,6 +394,9 @@ structure Cfg where
       delete (false: it counts as never written, and a following delete drops it from the write
       buffer without writing a delete entry) -/
   recreateKeepsPointer : Bool
+  /-- PatchTreasures without CreateIfNotExist asks whether the swamp exists before it summons it
+      (false: it summons, and an empty swamp stays live and "exists") -/
+  patchAsksFirst : Bool
   /-- `SaveFunction` releases the record guard itself when the write interval is 0 -/
   saveReleasesImmediate : Bool
   encoding : Encoding
@@ -421,6 +424,7 @@ inductive Tag where
   | resurrected        -- a key that was deleted comes back from the file at reload
   | nanCond            -- a float ordering condition was evaluated through its complement
   | unstorableKey      -- a record was accepted under a key the file cannot hold
+  | patchGhost         -- PatchTreasures summoned a swamp that does not exist and stored nothing
   deriving DecidableEq, Repr, Inhabited
 
 /-- the code's treasure object -/
